@@ -3,6 +3,17 @@ each property.  A unit may serve several properties; its obligations are
 generated once per check run."""
 
 UNITS = {
+    'C16': {
+        'functions': ['penman.__main__:_check', 'penman.model:Model.has_role'],
+        'lemmas': [],
+        'level': 'other',
+        'explanation': 'Proved: _check returns a non-zero status exactly when the model\'s error report for the graph is '
+                       'non-empty (also when the only errors are about the graph as a whole), records an error-N '
+                       'entry for every offending context, and leaves triples and top alone; has_role accepts a role '
+                       'the model defines directly or as a single inversion.  The content of the report (reachability) '
+                       'and the accumulation over graphs and files in process/main are decided by the bounded stand-in '
+                       '(subprocess runs of python -m penman --check).',
+    },
     'C07': {
         'functions': ['penman._lexer:TokenIterator.__bool__', 'penman._lexer:TokenIterator.error',
                       'penman._lexer:TokenIterator.peek', 'penman._lexer:TokenIterator.next',
